@@ -2,6 +2,7 @@ import Rbql.Model.Basic
 import Rbql.Model.Csv
 import Rbql.Model.ReaderPy
 import Rbql.Model.ReaderJs
+import Rbql.Model.Writer
 import Rbql.Proofs.Find
 import Rbql.Proofs.Split
 import Rbql.Theorems.C11
